@@ -11,9 +11,12 @@ func genRace(r *Rng, prop string) *Scenario {
 	cfg.LatC2BUs, cfg.LatB2CUs, cfg.DialLatUs = 10, 10, 5
 	cfg.BrokerMethod = r.pick("A", "B")
 	cfg.AutoPubRel = true
-	kind := r.weighted(3, 5)
+	kind := r.weighted(3, 5, 2)
 	if prop == "C15" {
 		kind = 0
+	}
+	if kind == 2 {
+		return genRaceManual(r, sc)
 	}
 	actor := 10
 	addOp := func(op Op) {
@@ -28,6 +31,9 @@ func genRace(r *Rng, prop string) *Scenario {
 		case 0:
 			tok++
 			op.Kind, op.QoS, op.Topic, op.Token = "publish", byte(r.IntN(3)), topics[r.IntN(len(topics))], fmt.Sprintf("m%d", tok)
+			if r.chance(0.3) {
+				op.PayLen = int(r.pickI(300, 5000, 9000, 20000)) // packets larger than any plausible chunk size
+			}
 		case 1:
 			op.Kind, op.Subs = "subscribe", []SubReq{{filters[r.IntN(len(filters))], byte(r.IntN(3))}}
 		case 2:
@@ -52,6 +58,18 @@ func genRace(r *Rng, prop string) *Scenario {
 			n := int(r.between(2, 8))
 			if prop == "C15" {
 				n = int(r.between(4, 16))
+			}
+			if prop != "C15" && r.chance(0.5) {
+				// a burst of large packets from many writers plus acknowledgements from
+				// the reader: any write that is not atomic per packet shows as an
+				// interleaved byte stream
+				for i := 0; i < int(r.between(3, 8)); i++ {
+					tok++
+					addOp(Op{AtUs: t, Kind: "publish", QoS: byte(r.IntN(2)), Topic: "a", Token: fmt.Sprintf("m%d", tok), PayLen: int(r.pickI(9000, 20000, 40000, 70000))})
+				}
+				for i := 0; i < 4; i++ {
+					sc.Script = append(sc.Script, Out{Conn: 1, AtUs: t, Kind: "pkt", Pkt: &Pkt{Type: TPublish, QoS: 1, ID: uint16(200 + ph*10 + i), Topic: "a/x", Pay: fmt.Sprintf("inb%d_%d", ph, i)}})
+				}
 			}
 			for i := 0; i < n; i++ {
 				op := request(t, true)
@@ -126,5 +144,56 @@ func genRace(r *Rng, prop string) *Scenario {
 		t += 3000
 	}
 	sc.HorizonUs, sc.EndUs = t+3000, t+8000
+	return sc
+}
+
+// genRaceManual: a bare RetryClient driven through Retryer while other
+// goroutines publish, subscribe, probe and register handlers.
+func genRaceManual(r *Rng, sc *Scenario) *Scenario {
+	cfg := &sc.Cfg
+	cfg.Client = "retry"
+	cfg.InitIDs = spacedInitIDs(r, 8)
+	cfg.DirectQoS0 = r.chance(0.3)
+	actor := 10
+	tok := 0
+	t := int64(0)
+	nconn := int(r.between(2, 4))
+	for k := 1; k <= nconn; k++ {
+		if k > 1 {
+			sc.Ops = append(sc.Ops, Op{AtUs: t, Actor: -1, Kind: "close"})
+		}
+		// SetClient / Connect / Retry on one goroutine, everything else on others, same instant
+		sc.Ops = append(sc.Ops, Op{AtUs: t, Actor: 0, Kind: "setclient"})
+		sc.Ops = append(sc.Ops, Op{AtUs: t, Actor: 0, Kind: "rconnect"})
+		sc.Ops = append(sc.Ops, Op{AtUs: t, Actor: 0, Kind: "afterconnect", Target: len(sc.Ops) - 1})
+		for i := 0; i < int(r.between(2, 7)); i++ {
+			actor++
+			op := Op{AtUs: t, Actor: actor}
+			switch r.weighted(5, 2, 2, 4, 1, 1) {
+			case 0:
+				tok++
+				op.Kind, op.QoS, op.Topic, op.Token = "publish", byte(r.IntN(3)), "a", fmt.Sprintf("m%d", tok)
+			case 1:
+				op.Kind, op.Subs = "subscribe", []SubReq{{filters[r.IntN(len(filters))], byte(r.IntN(3))}}
+			case 2:
+				op.Kind, op.Topics = "unsubscribe", []string{filters[r.IntN(len(filters))]}
+			case 3:
+				op.Kind, op.Repeat = "probe", int(r.between(1, 40))
+			case 4:
+				op.Kind, op.Handler = "handle", 1+r.IntN(2)
+			case 5:
+				op.Kind = "retry"
+			}
+			if k == 1 && op.Kind == "probe" {
+				op.AtUs = t + 50 // Client() is nil before the first SetClient
+			}
+			sc.Ops = append(sc.Ops, op)
+		}
+		if r.chance(0.5) {
+			sc.Faults = append(sc.Faults, Fault{Kind: r.pick("cutAfter", "cutBefore"), Conn: k, N: int(r.between(1, 5))})
+		}
+		t += 2000
+	}
+	sc.HorizonUs, sc.EndUs = t+2000, t+6000
 	return sc
 }
